@@ -35,9 +35,10 @@
        dump: cachedDBRound, len(deltas), the four modified maps with their reference counts,
        the three base caches as sets of (key, round) (their LRU order shows through (x ...))
 
-   A case in which a held reader is released after the DB round moved on and an answer then
-   contradicts the history carries the signature late_pending_cache_write (the original
-   flushPendingWrites; the model is the repaired flushPendingWritesSince).
+   The model is the code as it is (flushPendingWrites).  A case in which a held reader is released
+   at a point the original flush does not tolerate ([land_okb] false on the model state), the
+   model still agrees with the implementation, and an answer contradicts the history carries the
+   signature late_pending_cache_write; any other contradiction is a violation.
 
    [spec_ok] never looks at the model: it folds the deltas of the (b ...) operations
    ([state_at]) and compares every (ok ...) answer with the projection of that state; errors
@@ -194,7 +195,7 @@ Record cst := mkCst {
   c_nwin : nat;              (* answers obtained while a commit was between transaction and postCommit *)
   c_stalled : list (nat * (term * term) * nat);
                              (* held readers: space, (model's answer, the history's answer), DB round *)
-  c_late : bool }.           (* a held reader was released after the DB round had moved on *)
+  c_late : bool }.           (* a held reader was released where the original flush does not tolerate it *)
 
 Definition upd_model (c : cst) (s : st) (corr : bool) : cst :=
   mkCst s (c_hist c) (c_iR c) (c_ind c) (c_iph c) (c_spec c) (c_corr c && corr) (c_bad c)
@@ -268,7 +269,7 @@ Definition chk_land (c : cst) (space n : nat) (obs : term) : cst :=
   | (Some (ans, r0), rest) =>
       mkCst s1 (c_hist c) (c_iR c) (c_ind c) (c_iph c)
             (c_spec c && term_eqb obs (snd ans)) (c_corr c && term_eqb obs (fst ans)) (c_bad c)
-            (S (c_nok c)) (c_ncommit c) (c_nwin c) rest (c_late c || (r0 <? c_iR c)%nat)
+            (S (c_nok c)) (c_ncommit c) (c_nwin c) rest (c_late c || negb (land_okb (c_st c) space n))
   | (None, _) => upd_model c s1 false
   end.
 
@@ -414,7 +415,7 @@ Definition check (t : term) : term :=
       match as_nat lb, as_bool ca, as_nat na, as_nat nr, as_nat nk, as_list_of as_acct_rec gen with
       | Some lb, Some ca, Some na, Some nr, Some nk, Some gen =>
           let g := genesis_world gen in
-          let c0 := mkCst (init (mkCfg lb ca na nr nk true) gen) [] 0 0 0%Z true true false 0 0 0 [] false in
+          let c0 := mkCst (init (mkCfg lb ca na nr nk false) gen) [] 0 0 0%Z true true false 0 0 0 [] false in
           let c := fold_left (chk_op g) ops c0 in
           if c_bad c then v_parse
           else
@@ -423,7 +424,7 @@ Definition check (t : term) : term :=
                still compared with the implementation *)
             let detail := TL [tb wf; tb (c_spec c); tb (c_corr c); t_nat (c_nok c); t_nat (c_ncommit c);
                               t_nat (c_nwin c); tb (c_late c)] in
-            if wf && negb (c_spec c) && c_late c then v_known "late_pending_cache_write" detail
+            if wf && negb (c_spec c) && c_late c && c_corr c then v_known "late_pending_cache_write" detail
             else verdict (negb wf || c_spec c) (c_corr c)
                          (wf && Nat.ltb 0 (c_nok c) && Nat.ltb 0 (c_ncommit c)) detail
       | _, _, _, _, _, _ => v_parse
